@@ -6,3 +6,5 @@ import Proofs.GenTables
 #print axioms Xsel.C15.truncated_json_is_error
 #print axioms Xsel.Gen.partial_sites_covered
 #print axioms Xsel.Gen.binary_handlers_have_two_children
+#print axioms Xsel.C15.handler_walk_never_panics
+#print axioms Xsel.C15.handler_walk_result_or_error
